@@ -140,6 +140,8 @@ func sortByName(s string) (Sort, error) {
 		return SArrB, nil
 	case "ArrArr":
 		return ArrSort(SInt, SArrI), nil
+	case "ArrStr":
+		return ArrSort(SInt, SStr), nil
 	case "SetArr": // set of [N]byte values (e.g. addresses)
 		return ArrSort(SArrI, SBool), nil
 	case "SetStr":
